@@ -8,7 +8,7 @@ From PG Require Import Common.Tactics Model.SymCoreDefs Model.SymCoreOps Model.S
      Proofs.SymCoreEventsBase Proofs.SymCoreEventsDeliver Proofs.SymCoreEventsStep Proofs.SymCoreEventsWF
      Proofs.SymCoreEventsOrder Proofs.SymCoreEventsTheorems Proofs.SymCoreEventsExamples.
 From PG Require Import Model.SymCoreEventsSpec Proofs.SymCoreEventsQuery Proofs.SymCoreEventsFrame Proofs.SymCoreEventsFresh.
-From PG Require Import Gen.NotifySrc Proofs.SymCoreEventsInstance.
+From PG Require Import Gen.NotifySrc Proofs.SymCoreEventsInstance Proofs.SymCoreEventsComplete.
 From Coq Require Import NArith.
 
 (* ---- the source, as read by the translator on this run (Gen/NotifySrc.v) ------------------------------------------------------------------- *)
@@ -76,15 +76,50 @@ Theorem C09_no_notification_no_event : forall t, (forall st ups stop, ~ In (TN s
 Proof. exact no_tn_no_events. Qed.
 Print Assumptions C09_no_notification_no_event.
 
+(* ---- complete: what was written is told ------------------------------------------------------------------------------------------------- *)
+(* the notification of a call names exactly the containers the call wrote: every write of the trace is the target of one of the FieldUpdates,
+   every FieldUpdate has its write (with C09_receivers_exact: nobody above a written container is left out; with C09_every_change_is_reset:
+   whatever changed was written or notified) *)
+Theorem C09_notification_names_the_writes : forall q st o st' ups stop, WFI st -> In (TN st' ups stop) (step_trace q st o) ->
+  (forall st1 cid, In (TW st1 cid) (step_trace q st o) -> exists u, In u ups /\ u_tid u = cid) /\
+  (forall u, In u ups -> exists st1, In (TW st1 (u_tid u)) (step_trace q st o)).
+Proof. exact step_reported. Qed.
+Print Assumptions C09_notification_names_the_writes.
+Theorem C09_rebind_notification_names_the_writes : forall q st sc ps pvs skip np st' ups stop,
+  In (TN st' ups stop) (snd (stepx q st sc ps pvs skip np)) ->
+  (forall st1 cid, In (TW st1 cid) (snd (stepx q st sc ps pvs skip np)) -> exists u, In u ups /\ u_tid u = cid) /\
+  (forall u, In u ups -> exists st1, In (TW st1 (u_tid u)) (snd (stepx q st sc ps pvs skip np))).
+Proof. exact stepx_reported. Qed.
+Print Assumptions C09_rebind_notification_names_the_writes.
+(* with notification enabled, a call that wrote a container and did not raise HAS notified.  [step_tells] excludes the calls that write
+   without telling by design: Dict.update / |= (skip_notification), l * n (writes of the new list), clear() of what is empty already.
+   Not told: the writes of a batch that raised in the middle (List.extend, rebind) -- the second disjunct *)
+Theorem C09_write_is_told : forall q st o st1 cid, WFI st -> notify_on (o_scope o) = true -> step_tells st o ->
+  In (TW st1 cid) (step_trace q st o) ->
+  (exists st' ups stop, In (TN st' ups stop) (step_trace q st o)) \/ exists e, snd (step q st o) = Err e.
+Proof. exact step_told. Qed.
+Print Assumptions C09_write_is_told.
+Theorem C09_rebind_write_is_told : forall q st sc ps pvs skip np st1 cid, WFI st ->
+  (match skip with Some b => negb b | None => notify_on sc end) = true ->
+  In (TW st1 cid) (snd (stepx q st sc ps pvs skip np)) ->
+  (exists st' ups stop, In (TN st' ups stop) (snd (stepx q st sc ps pvs skip np))) \/
+  exists e, snd (fst (stepx q st sc ps pvs skip np)) = Err e.
+Proof. exact stepx_told. Qed.
+Print Assumptions C09_rebind_write_is_told.
+
 (* ---- children before parents --------------------------------------------------------------------------------------------------------- *)
 (* in delivery order no receiver is stored above a later one: no later path is a proper extension of an earlier one.  Python's sorted()
-   over KeyPaths is modelled by an insertion sort, which agrees with it where the key comparison is a consistent order: on simple keys
-   (ints 0..9, strings not starting with a digit or sign -- Example batch_simple) *)
+   over KeyPaths is modelled by an insertion sort, which agrees with it where the key comparison is a consistent order: on simple keys =
+   EVERY int key (list indices of any size, negative ints) and every string key that does not start with a digit or a minus sign
+   (Example batch_simple).  Outside, the comparison is not an order: C09_key_order_cycle *)
 Theorem C09_children_first : forall q st o,
   (forall st' ups stop, In (TN st' ups stop) (step_trace q st o) -> Forall (fun n => simple_path (npth n)) (affected st' ups)) ->
   children_first (map ev_path (events_of (step_trace q st o))).
 Proof. exact step_children_first. Qed.
 Print Assumptions C09_children_first.
+Theorem C09_key_order_cycle : kw_ltb (KI 9) (KI 10) = true /\ kw_ltb (KI 10) (KS [53%N]) = true /\ kw_ltb (KS [53%N]) (KI 9) = true.
+Proof. exact key_order_cycle. Qed.
+Print Assumptions C09_key_order_cycle.
 
 (* ---- exact payload ------------------------------------------------------------------------------------------------------------------------ *)
 (* every delivered event belongs to an observing node [m] of [affected]; it carries m's path and exactly [payload_spec st' ups' m]: the
